@@ -470,7 +470,7 @@ func c03Loc(r *Run, l gts.Location, L, i, k int) {
 func residueLeaves(l gts.Location) []gts.Location {
 	var out []gts.Location
 	for _, u := range leaves(l) {
-		if u.Len() > 0 {
+		if leafLen(u) > 0 {
 			out = append(out, u)
 		}
 	}
@@ -880,7 +880,7 @@ func c04Loc(r *Run, l gts.Location, L, n int) {
 	guard := fmt.Sprintf("k2.expand %s 0 %d ; k2.normalize %s %d", ls, m, encLoc(mid), L)
 	fullLen := false
 	for _, u := range leaves(l) {
-		if u.Len() == L {
+		if leafLen(u) == L {
 			fullLen = true
 		}
 	}
@@ -1011,7 +1011,7 @@ func c05Loc(r *Run, l gts.Location, L int) {
 	if !setOK {
 		r.fail(Failure{Oracle: "reverse: residue x denoted before iff L-1-x denoted after", Op: line,
 			Got: encLoc(got) + " den=" + denStr(g), Want: "set " + denStr(want), Guard: guard})
-	} else if st := gts.CheckStrand(l); st != gts.StrandBoth && !hasNestedCompl(l) {
+	} else if denOneStrand(d) && !hasNestedCompl(l) {
 		if !sameMeaning(g, want) {
 			r.fail(Failure{Oracle: "reverse: parts appear in mirrored order", Op: line,
 				Got: encLoc(got) + " den=" + denStr(g), Want: denStr(want), Guard: guard})
@@ -1065,6 +1065,18 @@ func c05Loc(r *Run, l gts.Location, L int) {
 				Got: string(bb), Want: string(a), Guard: guard})
 		}
 	}
+}
+
+// denOneStrand: every residue of the denotation is read on the same strand — the gate of "parts appear
+// in mirrored order", read off the DENOTATION and not asked of gts.CheckStrand (a library function: an
+// answer StrandBoth for a shape would switch the clause off exactly there)
+func denOneStrand(d []pos) bool {
+	for _, p := range d {
+		if p.rev != d[0].rev {
+			return false
+		}
+	}
+	return true
 }
 
 func sameSet(a, b []pos) bool {
@@ -1237,7 +1249,7 @@ func propC05(r *Run) {
 				for k2, p := range d {
 					w[len(d)-1-k2] = pos{LL - 1 - p.x, p.rev}
 				}
-				if gts.CheckStrand(f.Loc) != gts.StrandBoth && !hasNestedCompl(f.Loc) {
+				if denOneStrand(d) && !hasNestedCompl(f.Loc) {
 					want[featKey(f)+denStr(w)]++
 					if hasAmbiguous(f.Loc) {
 						r.count("seq.reverse/law evaluated on a feature with an ambiguous span")
@@ -1684,7 +1696,7 @@ func c04Feats(r *Run, line string, before, after gts.Sequence, steps []int, L in
 		// the only part with residues is the whole range 1..L (zero-length sites may hang on)
 		nres, whole := 0, false
 		for _, u := range leaves(f.Loc) {
-			if u.Len() > 0 {
+			if leafLen(u) > 0 {
 				nres++
 				if rg, ok := u.(gts.Ranged); ok && rg.Start == 0 && rg.End == L {
 					whole = true
